@@ -38,9 +38,9 @@ CHECKS = {
  "C10": ("exploration", "discrete-event simulation of the real event loop under a simulated driver; trace refinement against RefLoop and the drain-to-Busy rule", "3.B, 4 C10",
          "The real per-device loop runs on a simulated driver with edge-triggered readiness; arrival batching, device order, latency, signal interruptions with back-off, spurious time-outs/readiness and device removal are drawn from a decision tape. The recorded trace must refine RefLoop: every non-empty mapper step written once and in order, every notified device read until Busy/End before the next poll, no call after End. A hybrid campaign runs the shipped RealDriver (hook H3) on pipes underneath the simulated schedule and cross-checks its zero-timeout poll (token to device mapping, edge-triggered readiness) at every wake-up.", B_NOTE),
  "C11": ("exploration", "discrete-event simulation with a simulated clock; exact timeout/deadline prediction and chord payload check", "3.B, 4 C11",
-         "The clock is simulated, so every poll timeout is predicted exactly (None / deadline-now / 1 ms when overdue, no tolerance); chords are sent iff a time-out occurs while armed and not in tablet mode, with the payload 'repeat keys not already held, listed order, reverse release', and leave the held set unchanged.", B_NOTE),
+         "The clock is simulated, so every poll timeout is predicted (None while unarmed is wrong when armed; the wait must end at the deadline, which lies between the read of the arming event and the next wait and is exact afterwards; at most 1 ms when overdue; a wait that ends earlier is legal and owes nothing); timings range from 0 ms to a day; chords are sent iff a time-out occurs while armed and not in tablet mode, with the payload 'repeat keys not already held, listed order, reverse release', and leave the held set unchanged.", B_NOTE),
  "C12": ("exploration", "discrete-event simulation with tablet-switch arrivals interleaved with key arrivals and timer ticks", "3.B, 4 C12",
-         "Tablet on/off events (repeated, during chords, with a timer armed, in the same wake-up as key events in both orders): release batch equals the held keys (as a set), no write until Off is read, and afterwards the loop must behave like RefLoop continued with a brand-new mapper (C12-not-fresh), so state carried across the change by the mapper or the timer is visible.", B_NOTE),
+         "Tablet on/off events (repeated, during chords, with a timer armed, in the same wake-up as key events in both orders): release batch equals the held keys (as a set), no write until Off is read, and afterwards the loop must behave like RefLoop continued with a brand-new mapper (C12-not-fresh), so state carried across the change by the mapper or the timer is visible. The release of a key whose press was not handed to the mapper since the last change is owed nothing, whatever the mapper under test answers (C12-orphan-release). A hybrid campaign runs the shipped RealDriver on pipes: not reporting a tablet switch that has unread data (or a hang-up) counts against 'immediately' (C12-hybrid).", B_NOTE),
  "C14": ("exploration", "stored-file fault simulation (torn/corrupted layout file) through the real loader, then the real mapper under key histories; exhaustive truncation sweep of shipped texts", "3.D, 4 C14",
          "A real file is written, faulted (truncation at every offset of every shipped text exhaustively; random truncation, bit flips, block duplication/drop/transposition, garbage, empty, bad paths, non-UTF-8 otherwise) and loaded by the real load_layout_from_file; accepted layouts are installed in a real Mapper and driven by seeded histories. Any unwind is a violation.",
          "Trusted: catch_unwind observes every panic. Real code: load_layout_from_file (real file I/O), serde_json, parser, converter, Mapper. The byte-string quantifier is sampled from a grammar plus faults; weakest fit of the claimed properties (first clause is mostly decided by the generated workload)."),
